@@ -40,6 +40,11 @@ def generate(defn, cse, k, max_dt, decl, namespace="fv"):
 LAST_RERENDER = None
 
 
+def np_list(a):
+    import numpy as _np
+    return _np.asarray(a, dtype=float).tolist()
+
+
 def hexf(x):
     return float(x).hex()
 
@@ -152,6 +157,19 @@ def run_job(job, workroot):
         ekf = _py.compile_ekf(model, pn, sensors, sn, cm, config=_py.Config(common_subexpression_elimination=job["cse"]))
         out["py_readings"] = {k: [str(r) for r in v.readings] for k, v in sorted(ekf.sensor_models.items())}
         out["py_sensor_keys_sorted"] = sorted(ekf.sensor_models)
+        # values the Python filter computes at one fixed point: they may not depend on how the definition was declared
+        try:
+            st = ekf.State(**{str(a): 0.375 + 0.0625 * i for i, a in enumerate(ekf.arglist_state)})
+            ct = ekf.Control(**{str(a): -0.25 + 0.125 * i for i, a in enumerate(ekf.arglist_control)})
+            vals = {"G": ekf.process_jacobian(0.125, st, ct).tolist(), "V": np_list(ekf.control_jacobian(0.125, st, ct))}
+            for k_ in sorted(ekf.sensor_models):
+                vals["H/" + k_] = np_list(ekf.sensor_jacobian(k_, st))
+                vals["h/" + k_] = np_list(ekf.sensor_models[k_].model(st).data)
+                vals["Q/" + k_] = np_list(ekf.sensor_noises[k_].data)
+            vals["M"] = np_list(ekf.process_noise)
+            out["py_values"] = json.dumps(vals, sort_keys=True)
+        except Exception as e:  # noqa
+            out["py_values"] = "raised:" + type(e).__name__ + ": " + str(e)[:200]
         return out
     d = os.path.join(workroot, "job")
     shutil.rmtree(d, ignore_errors=True)
